@@ -1205,6 +1205,10 @@ class SSHConnection(SSHPacketHandler, asyncio.Protocol):
         except DisconnectError as exc:
             self._send_disconnect(exc.code, exc.reason, exc.lang)
             self._force_close(exc)
+        except PacketDecodeError as exc:
+            perr = ProtocolError(str(exc))
+            self._send_disconnect(perr.code, perr.reason, perr.lang)
+            self._force_close(perr)
         except Exception:
             self.internal_error(error_logger=task_logger)
 
@@ -1565,6 +1569,10 @@ class SSHConnection(SSHPacketHandler, asyncio.Protocol):
         except DisconnectError as exc:
             self._send_disconnect(exc.code, exc.reason, exc.lang)
             self._force_close(exc)
+        except PacketDecodeError as exc:
+            perr = ProtocolError(str(exc))
+            self._send_disconnect(perr.code, perr.reason, perr.lang)
+            self._force_close(perr)
         except Exception:
             self.internal_error()
 
